@@ -1,6 +1,1665 @@
-//! (stub) — not generated yet.
-use super::{GenFile, Repo};
+//! `Gen/CmpImpls.lean` (property C12): one row per `PartialEq`/`PartialOrd`/`Ord`/`Eq`/`Hash`/`Borrow`
+//! impl the crate offers on `HipByt`/`HipStr`/`HipOsStr`/`HipPath`, recording **what the source says**.
+//!
+//! * `symmetric_eq!` / `symmetric_ord!` invocations are parsed structurally: every row
+//!   `[gen] [where …] (A, B) = f;` yields one table row per impl template of the macro (two: both
+//!   operand orders). The templates themselves are read from the `macro_rules!` definitions in
+//!   `src/macros.rs` (Self type, parameter type, argument order of the `$f(…)` call, whether
+//!   `.map(core::cmp::Ordering::reverse)` is applied).
+//! * each helper `f` is resolved (same file, or through a `use super::…::{f}`), its signature gives
+//!   the two `impl AsRef<…>` targets and its body the operator (`==` / `partial_cmp`).
+//! * every hand-written impl of those traits for a Hip type is classified by the shape of its body
+//!   (`self.inherent_eq(other)`, `self.0 == other.0`, `[ptr::eq(..) ||] self.acc() op other.acc()`,
+//!   `self.acc().hash(state)`, `self.acc()` / `BStr::new(self.acc())` for `Borrow`).
+//! * plus the facts those bodies rely on: what `.0` is (`newtypes`), what each accessor returns
+//!   (`accessorSigs`) and the statements of `HipByt::inherent_eq` (`inherentEq`).
+//!
+//! The translator never decides through which view an impl compares: `viewOf`/`rowOk` in
+//! `HipVerif/Model/Views.lean` do. Any unrecognised shape is an `Err` (fail closed).
 
-pub fn generate(_repo: &Repo) -> Result<Vec<GenFile>, String> {
-    Ok(vec![])
+use proc_macro2::{Delimiter, Group, Ident, Span, TokenStream, TokenTree};
+use syn::parse::{Parse, ParseStream};
+use syn::{Expr, FnArg, GenericArgument, ImplItem, Item, ItemFn, ItemImpl, Pat, PathArguments, Stmt, Type};
+
+use super::repo::{loc, SrcFile};
+use super::{GenFile, Repo, HEADER};
+
+// ---------------------------------------------------------------------------------------------
+// small vocabulary shared with HipVerif/Model/ViewsTy.lean
+
+#[derive(Clone, Copy, PartialEq, Eq, Debug, PartialOrd, Ord)]
+enum Hip {
+    Byt,
+    Str,
+    Os,
+    Path,
+}
+
+impl Hip {
+    fn lean(self) -> &'static str {
+        match self {
+            Hip::Byt => ".byt",
+            Hip::Str => ".str",
+            Hip::Os => ".os",
+            Hip::Path => ".path",
+        }
+    }
+    fn from_ident(s: &str) -> Option<Hip> {
+        Some(match s {
+            "HipByt" => Hip::Byt,
+            "HipStr" => Hip::Str,
+            "HipOsStr" => Hip::Os,
+            "HipPath" => Hip::Path,
+            _ => return None,
+        })
+    }
+    fn rust(self) -> &'static str {
+        match self {
+            Hip::Byt => "HipByt",
+            Hip::Str => "HipStr",
+            Hip::Os => "HipOsStr",
+            Hip::Path => "HipPath",
+        }
+    }
+}
+
+#[derive(Clone, PartialEq, Eq, Debug)]
+enum Operand {
+    Hip(Hip),
+    Std(&'static str, bool),
+}
+
+impl Operand {
+    fn lean(&self) -> String {
+        match self {
+            Operand::Hip(h) => format!(".hip {}", h.lean()),
+            Operand::Std(s, r) => format!(".std .{s} {r}"),
+        }
+    }
+}
+
+#[derive(Clone, Copy, PartialEq, Eq, Debug)]
+enum Target {
+    Slice,
+    Str,
+    OsStr,
+    Path,
+    BStr,
+}
+
+impl Target {
+    fn lean(self) -> &'static str {
+        match self {
+            Target::Slice => ".slice",
+            Target::Str => ".str",
+            Target::OsStr => ".osStr",
+            Target::Path => ".path",
+            Target::BStr => ".bstr",
+        }
+    }
+}
+
+#[derive(Clone, Copy, PartialEq, Eq, Debug)]
+enum Op {
+    EqEq,
+    PartialCmp,
+    Cmp,
+}
+
+impl Op {
+    fn lean(self) -> &'static str {
+        match self {
+            Op::EqEq => ".eqeq",
+            Op::PartialCmp => ".partialCmp",
+            Op::Cmp => ".cmp",
+        }
+    }
+}
+
+#[derive(Clone, Copy, PartialEq, Eq, Debug)]
+enum Trait {
+    PartialEq,
+    PartialOrd,
+    Ord,
+    Eq,
+    Hash,
+    Borrow,
+}
+
+impl Trait {
+    fn lean(self) -> &'static str {
+        match self {
+            Trait::PartialEq => ".partialEq",
+            Trait::PartialOrd => ".partialOrd",
+            Trait::Ord => ".ord",
+            Trait::Eq => ".eq",
+            Trait::Hash => ".hash",
+            Trait::Borrow => ".borrow",
+        }
+    }
+    fn from_ident(s: &str) -> Option<Trait> {
+        Some(match s {
+            "PartialEq" => Trait::PartialEq,
+            "PartialOrd" => Trait::PartialOrd,
+            "Ord" => Trait::Ord,
+            "Eq" => Trait::Eq,
+            "Hash" => Trait::Hash,
+            "Borrow" => Trait::Borrow,
+            _ => return None,
+        })
+    }
+}
+
+#[derive(Clone, Copy, PartialEq, Eq, Debug)]
+enum Arg {
+    SelfArg,
+    Other,
+}
+
+impl Arg {
+    fn lean(self) -> &'static str {
+        match self {
+            Arg::SelfArg => ".self",
+            Arg::Other => ".other",
+        }
+    }
+}
+
+#[derive(Clone, Copy, PartialEq, Eq, Debug, PartialOrd, Ord)]
+enum Accessor {
+    AsSlice,
+    AsBytes,
+    AsStr,
+    AsOsStr,
+    AsPath,
+}
+
+impl Accessor {
+    fn lean(self) -> &'static str {
+        match self {
+            Accessor::AsSlice => ".asSlice",
+            Accessor::AsBytes => ".asBytes",
+            Accessor::AsStr => ".asStr",
+            Accessor::AsOsStr => ".asOsStr",
+            Accessor::AsPath => ".asPath",
+        }
+    }
+    fn rust(self) -> &'static str {
+        match self {
+            Accessor::AsSlice => "as_slice",
+            Accessor::AsBytes => "as_bytes",
+            Accessor::AsStr => "as_str",
+            Accessor::AsOsStr => "as_os_str",
+            Accessor::AsPath => "as_path",
+        }
+    }
+    fn from_ident(s: &str) -> Option<Accessor> {
+        Some(match s {
+            "as_slice" => Accessor::AsSlice,
+            "as_bytes" => Accessor::AsBytes,
+            "as_str" => Accessor::AsStr,
+            "as_os_str" => Accessor::AsOsStr,
+            "as_path" => Accessor::AsPath,
+            _ => return None,
+        })
+    }
+}
+
+fn lean_str(s: &str) -> String {
+    format!("\"{}\"", s.replace('\\', "\\\\").replace('"', "\\\""))
+}
+
+// ---------------------------------------------------------------------------------------------
+// generic syn helpers
+
+fn last_ident(p: &syn::Path) -> String {
+    p.segments.last().map(|s| s.ident.to_string()).unwrap_or_default()
+}
+
+fn path_is_single(e: &Expr, name: &str) -> bool {
+    matches!(e, Expr::Path(p) if p.qself.is_none() && p.path.is_ident(name))
+}
+
+fn type_args(seg: &syn::PathSegment) -> Vec<&Type> {
+    match &seg.arguments {
+        PathArguments::AngleBracketed(a) => a
+            .args
+            .iter()
+            .filter_map(|g| if let GenericArgument::Type(t) = g { Some(t) } else { None })
+            .collect(),
+        _ => vec![],
+    }
+}
+
+fn is_u8(t: &Type) -> bool {
+    matches!(t, Type::Path(p) if p.qself.is_none() && p.path.is_ident("u8"))
+}
+
+/// The unsized view type named by `t` (`[u8]`, `str`, `OsStr`, `Path`, `BStr`, any path prefix).
+fn target_of_type(t: &Type) -> Option<Target> {
+    match t {
+        Type::Slice(s) if is_u8(&s.elem) => Some(Target::Slice),
+        Type::Path(p) if p.qself.is_none() => {
+            let seg = p.path.segments.last()?;
+            if !matches!(seg.arguments, PathArguments::None) {
+                return None;
+            }
+            match seg.ident.to_string().as_str() {
+                "str" => Some(Target::Str),
+                "OsStr" => Some(Target::OsStr),
+                "Path" => Some(Target::Path),
+                "BStr" => Some(Target::BStr),
+                _ => None,
+            }
+        }
+        _ => None,
+    }
+}
+
+fn hip_of_type(t: &Type) -> Option<Hip> {
+    match t {
+        Type::Path(p) if p.qself.is_none() => Hip::from_ident(&last_ident(&p.path)),
+        _ => None,
+    }
+}
+
+/// Operand type of a macro row / trait argument.
+fn operand_of_type(t: &Type, ctx: &str) -> Result<Operand, String> {
+    let bad = || format!("{ctx}: unsupported operand type `{}`", quote::quote!(#t));
+    match t {
+        Type::Reference(r) => {
+            if r.mutability.is_some() {
+                return Err(bad());
+            }
+            match operand_of_type(&r.elem, ctx)? {
+                Operand::Std(s, false) => Ok(Operand::Std(s, true)),
+                _ => Err(bad()),
+            }
+        }
+        Type::Slice(s) if is_u8(&s.elem) => Ok(Operand::Std("slice", false)),
+        Type::Array(a) if is_u8(&a.elem) => Ok(Operand::Std("array", false)),
+        Type::Path(p) if p.qself.is_none() => {
+            let seg = p.path.segments.last().ok_or_else(bad)?;
+            let name = seg.ident.to_string();
+            if let Some(h) = Hip::from_ident(&name) {
+                return Ok(Operand::Hip(h));
+            }
+            let args = type_args(seg);
+            let inner_target = |args: &[&Type]| -> Option<Target> {
+                if args.len() == 1 {
+                    target_of_type(args[0])
+                } else {
+                    None
+                }
+            };
+            let std = match (name.as_str(), args.len()) {
+                ("str", 0) => "str",
+                ("String", 0) => "string",
+                ("OsStr", 0) => "osStr",
+                ("OsString", 0) => "osString",
+                ("Path", 0) => "path",
+                ("PathBuf", 0) => "pathBuf",
+                ("BStr", 0) => "bstr",
+                ("BString", 0) => "bstring",
+                ("Vec", 1) if is_u8(args[0]) => "vec",
+                ("Box", 1) => match inner_target(&args) {
+                    Some(Target::Slice) => "boxSlice",
+                    Some(Target::Str) => "boxStr",
+                    Some(Target::OsStr) => "boxOsStr",
+                    Some(Target::Path) => "boxPath",
+                    _ => return Err(bad()),
+                },
+                ("Cow", 1) => match inner_target(&args) {
+                    Some(Target::Slice) => "cowSlice",
+                    Some(Target::Str) => "cowStr",
+                    Some(Target::OsStr) => "cowOsStr",
+                    Some(Target::Path) => "cowPath",
+                    _ => return Err(bad()),
+                },
+                _ => return Err(bad()),
+            };
+            Ok(Operand::Std(std, false))
+        }
+        _ => Err(bad()),
+    }
+}
+
+/// `#[cfg(feature = "x")]` → Some("x"); `#[cfg(test)]` → Err marker handled by caller.
+enum Cfg {
+    None,
+    Feature(String),
+    Test,
+    Verif,
+}
+
+fn cfg_of_attrs(attrs: &[syn::Attribute], ctx: &str) -> Result<Cfg, String> {
+    let mut out = Cfg::None;
+    for a in attrs {
+        if !a.path().is_ident("cfg") {
+            continue;
+        }
+        if !matches!(out, Cfg::None) {
+            return Err(format!("{ctx}: more than one #[cfg] attribute"));
+        }
+        let meta: syn::Meta = a.parse_args().map_err(|e| format!("{ctx}: cfg: {e}"))?;
+        out = match &meta {
+            syn::Meta::Path(p) if p.is_ident("test") => Cfg::Test,
+            syn::Meta::Path(p) if p.is_ident("hipstr_verif") => Cfg::Verif,
+            syn::Meta::NameValue(nv) if nv.path.is_ident("feature") => match &nv.value {
+                Expr::Lit(syn::ExprLit { lit: syn::Lit::Str(s), .. }) => Cfg::Feature(s.value()),
+                _ => return Err(format!("{ctx}: unsupported cfg value")),
+            },
+            _ => return Err(format!("{ctx}: unsupported cfg `{}`", quote::quote!(#meta))),
+        };
+    }
+    Ok(out)
+}
+
+/// Module path of a source file: `src/bytes/cmp.rs` → ["bytes","cmp"], `src/lib.rs` → [].
+fn module_path(rel: &str) -> Result<Vec<String>, String> {
+    let p = rel.strip_prefix("src/").ok_or_else(|| format!("{rel}: not under src/"))?;
+    let p = p.strip_suffix(".rs").ok_or_else(|| format!("{rel}: not a .rs file"))?;
+    let mut segs: Vec<String> = p.split('/').map(str::to_string).collect();
+    if segs.last().map(String::as_str) == Some("mod") {
+        segs.pop();
+    }
+    if segs == ["lib"] {
+        segs.clear();
+    }
+    Ok(segs)
+}
+
+fn file_of_module<'a>(repo: &'a Repo, m: &[String]) -> Result<&'a SrcFile, String> {
+    if m.is_empty() {
+        return repo.file("src/lib.rs");
+    }
+    let a = format!("src/{}.rs", m.join("/"));
+    let b = format!("src/{}/mod.rs", m.join("/"));
+    repo.file(&a).or_else(|_| repo.file(&b)).map_err(|_| format!("no source file for module {}", m.join("::")))
+}
+
+/// Features guarding a whole file: the `#[cfg(feature=…)]` on its `mod` declaration and on those
+/// of its ancestors (outermost first).
+fn file_features(repo: &Repo, rel: &str) -> Result<Vec<String>, String> {
+    let m = module_path(rel)?;
+    let mut feats = vec![];
+    for depth in 0..m.len() {
+        let parent = file_of_module(repo, &m[..depth])?;
+        let name = &m[depth];
+        let decl = parent.ast.items.iter().find_map(|it| match it {
+            Item::Mod(md) if md.ident == name && md.content.is_none() => Some(md),
+            _ => None,
+        });
+        let decl = decl.ok_or_else(|| format!("{}: no `mod {name};` found", parent.rel))?;
+        match cfg_of_attrs(&decl.attrs, &format!("{}: mod {name}", parent.rel))? {
+            Cfg::None => {}
+            Cfg::Feature(f) => {
+                if !feats.contains(&f) {
+                    feats.push(f)
+                }
+            }
+            Cfg::Test | Cfg::Verif => return Err(format!("{rel}: module is cfg(test)/cfg(hipstr_verif)")),
+        }
+    }
+    Ok(feats)
+}
+
+fn join_features(file: &[String], item: &Cfg) -> String {
+    let mut v: Vec<String> = file.to_vec();
+    if let Cfg::Feature(f) = item {
+        if !v.contains(f) {
+            v.push(f.clone());
+        }
+    }
+    v.join("+")
+}
+
+// ---------------------------------------------------------------------------------------------
+// macro definitions: `symmetric_eq!` / `symmetric_ord!`
+
+#[derive(Debug, Clone)]
+struct Template {
+    macro_name: String,
+    tr: Trait,
+    self_is_a: bool,
+    arg1: Arg,
+    arg2: Arg,
+    reverse: bool,
+    loc: String,
+}
+
+fn is_punct(t: &TokenTree, c: char) -> bool {
+    matches!(t, TokenTree::Punct(p) if p.as_char() == c)
+}
+
+fn contains_ident(ts: &TokenStream, names: &[&str]) -> bool {
+    ts.clone().into_iter().any(|t| match t {
+        TokenTree::Ident(i) => names.iter().any(|n| i == n),
+        TokenTree::Group(g) => contains_ident(&g.stream(), names),
+        _ => false,
+    })
+}
+
+/// Rewrites a transcriber into plain Rust: `$x` → `__mv_x`, `$crate` → `crate`, every `$( … ) sep? op`
+/// repetition is dropped — provided it mentions none of `forbidden` (the `$a`/`$b`/`$f` metavariables,
+/// `impl`, `fn`), so that nothing that matters can hide in a dropped group.
+fn strip_transcriber(ts: TokenStream, forbidden: &[&str], ctx: &str) -> Result<TokenStream, String> {
+    let toks: Vec<TokenTree> = ts.into_iter().collect();
+    let mut out: Vec<TokenTree> = vec![];
+    let mut i = 0;
+    while i < toks.len() {
+        if is_punct(&toks[i], '$') {
+            match toks.get(i + 1) {
+                Some(TokenTree::Ident(id)) => {
+                    let name = id.to_string();
+                    let new = if name == "crate" { "crate".to_string() } else { format!("__mv_{name}") };
+                    out.push(TokenTree::Ident(Ident::new(&new, id.span())));
+                    i += 2;
+                }
+                Some(TokenTree::Group(g)) if g.delimiter() == Delimiter::Parenthesis => {
+                    if contains_ident(&g.stream(), forbidden) {
+                        return Err(format!(
+                            "{ctx}: a `$( … )` repetition mentions one of {forbidden:?}; unsupported macro shape"
+                        ));
+                    }
+                    i += 2;
+                    // optional separator, then the repetition operator
+                    let is_op = |t: Option<&TokenTree>| t.map_or(false, |t| is_punct(t, '?') || is_punct(t, '*') || is_punct(t, '+'));
+                    if is_op(toks.get(i)) {
+                        i += 1;
+                    } else if is_op(toks.get(i + 1)) {
+                        i += 2;
+                    } else {
+                        return Err(format!("{ctx}: repetition without operator"));
+                    }
+                }
+                _ => return Err(format!("{ctx}: stray `$`")),
+            }
+        } else if let TokenTree::Group(g) = &toks[i] {
+            let inner = strip_transcriber(g.stream(), forbidden, ctx)?;
+            let mut ng = Group::new(g.delimiter(), inner);
+            ng.set_span(g.span());
+            out.push(TokenTree::Group(ng));
+            i += 1;
+        } else {
+            out.push(toks[i].clone());
+            i += 1;
+        }
+    }
+    Ok(out.into_iter().collect())
+}
+
+/// Finds `( $A:ty , $B:ty ) = $F:path ;` in the matcher and returns the three metavariable names.
+fn matcher_vars(ts: &TokenStream, ctx: &str) -> Result<(String, String, String), String> {
+    let toks: Vec<TokenTree> = ts.clone().into_iter().collect();
+    let frag = |ts: &[TokenTree], at: usize, kind: &str| -> Option<String> {
+        // `$ name : kind`
+        if ts.len() >= at + 4 && is_punct(&ts[at], '$') && is_punct(&ts[at + 2], ':') {
+            if let (TokenTree::Ident(n), TokenTree::Ident(k)) = (&ts[at + 1], &ts[at + 3]) {
+                if k == kind {
+                    return Some(n.to_string());
+                }
+            }
+        }
+        None
+    };
+    let mut found = None;
+    for (i, t) in toks.iter().enumerate() {
+        if let TokenTree::Group(g) = t {
+            if g.delimiter() != Delimiter::Parenthesis || (i > 0 && is_punct(&toks[i - 1], '$')) {
+                continue;
+            }
+            let inner: Vec<TokenTree> = g.stream().into_iter().collect();
+            if inner.len() != 9 || !is_punct(&inner[4], ',') {
+                continue;
+            }
+            let (Some(a), Some(b)) = (frag(&inner, 0, "ty"), frag(&inner, 5, "ty")) else { continue };
+            // `= $f:path ;`
+            if toks.len() >= i + 7 && is_punct(&toks[i + 1], '=') && is_punct(&toks[i + 6], ';') {
+                if let Some(f) = frag(&toks, i + 2, "path") {
+                    if found.is_some() {
+                        return Err(format!("{ctx}: ambiguous matcher"));
+                    }
+                    found = Some((a, b, f));
+                }
+            }
+        }
+    }
+    found.ok_or_else(|| format!("{ctx}: matcher does not have the shape `($a:ty, $b:ty) = $f:path ;`"))
+}
+
+fn mv_type(t: &Type) -> Option<String> {
+    match t {
+        Type::Path(p) if p.qself.is_none() => p.path.get_ident().map(|i| i.to_string()),
+        _ => None,
+    }
+}
+
+fn parse_macro_def(file: &SrcFile, name: &str) -> Result<Vec<Template>, String> {
+    let ctx = format!("{}: macro_rules! {name}", file.rel);
+    let mac = file
+        .ast
+        .items
+        .iter()
+        .find_map(|it| match it {
+            Item::Macro(m) if m.mac.path.is_ident("macro_rules") && m.ident.as_ref().map_or(false, |i| i == name) => Some(m),
+            _ => None,
+        })
+        .ok_or_else(|| format!("{ctx}: not found"))?;
+    // rules: `( matcher ) => { transcriber } ;`
+    let toks: Vec<TokenTree> = mac.mac.tokens.clone().into_iter().collect();
+    let mut rules: Vec<(Group, Group)> = vec![];
+    let mut i = 0;
+    while i < toks.len() {
+        let (TokenTree::Group(m), Some(eq), Some(gt), Some(TokenTree::Group(t))) =
+            (&toks[i], toks.get(i + 1), toks.get(i + 2), toks.get(i + 3))
+        else {
+            return Err(format!("{ctx}: unsupported rule syntax"));
+        };
+        if !is_punct(eq, '=') || !is_punct(gt, '>') {
+            return Err(format!("{ctx}: unsupported rule syntax"));
+        }
+        rules.push((m.clone(), t.clone()));
+        i += 4;
+        if i < toks.len() && is_punct(&toks[i], ';') {
+            i += 1;
+        }
+    }
+    let mut real = vec![];
+    for (m, t) in rules {
+        if m.stream().is_empty() && t.stream().is_empty() {
+            continue; // `() => {};` recursion end
+        }
+        real.push((m, t));
+    }
+    if real.len() != 1 {
+        return Err(format!("{ctx}: expected exactly one non-trivial rule, found {}", real.len()));
+    }
+    let (matcher, transcriber) = &real[0];
+    let (va, vb, vf) = matcher_vars(&matcher.stream(), &ctx)?;
+    let forbidden_owned = [va.clone(), vb.clone(), vf.clone(), "impl".to_string(), "fn".to_string()];
+    let forbidden: Vec<&str> = forbidden_owned.iter().map(String::as_str).collect();
+    let plain = strip_transcriber(transcriber.stream(), &forbidden, &ctx)?;
+    let parsed: syn::File = syn::parse2(plain).map_err(|e| format!("{ctx}: transcriber is not a list of items: {e}"))?;
+    let (mva, mvb, mvf) = (format!("__mv_{va}"), format!("__mv_{vb}"), format!("__mv_{vf}"));
+    let mut out = vec![];
+    for it in &parsed.items {
+        let Item::Impl(im) = it else {
+            return Err(format!("{ctx}: transcriber contains a non-impl item"));
+        };
+        let l = loc(file, im.impl_token.span);
+        let ictx = format!("{ctx} (impl at {l})");
+        let (_, tpath, _) = im.trait_.as_ref().ok_or_else(|| format!("{ictx}: inherent impl"))?;
+        let seg = tpath.segments.last().unwrap();
+        let tr = match seg.ident.to_string().as_str() {
+            "PartialEq" => Trait::PartialEq,
+            "PartialOrd" => Trait::PartialOrd,
+            o => return Err(format!("{ictx}: unexpected trait {o}")),
+        };
+        let targs = type_args(seg);
+        if targs.len() != 1 {
+            return Err(format!("{ictx}: trait must have exactly one type argument"));
+        }
+        let other_ty = mv_type(targs[0]).ok_or_else(|| format!("{ictx}: trait argument is not a metavariable"))?;
+        let self_ty = mv_type(&im.self_ty).ok_or_else(|| format!("{ictx}: Self is not a metavariable"))?;
+        let self_is_a = if self_ty == mva && other_ty == mvb {
+            true
+        } else if self_ty == mvb && other_ty == mva {
+            false
+        } else {
+            return Err(format!("{ictx}: Self/argument are not the two row types"));
+        };
+        if im.items.len() != 1 {
+            return Err(format!("{ictx}: expected exactly one method"));
+        }
+        let ImplItem::Fn(f) = &im.items[0] else {
+            return Err(format!("{ictx}: expected a method"));
+        };
+        let want = if tr == Trait::PartialEq { "eq" } else { "partial_cmp" };
+        if f.sig.ident != want {
+            return Err(format!("{ictx}: method is `{}`, expected `{want}`", f.sig.ident));
+        }
+        // (&self, other: &$x)
+        let ins: Vec<&FnArg> = f.sig.inputs.iter().collect();
+        if ins.len() != 2 {
+            return Err(format!("{ictx}: method must take (&self, other)"));
+        }
+        match ins[0] {
+            FnArg::Receiver(r) if r.reference.is_some() && r.mutability.is_none() => {}
+            _ => return Err(format!("{ictx}: receiver must be &self")),
+        }
+        match ins[1] {
+            FnArg::Typed(pt) => {
+                let ok_name = matches!(&*pt.pat, Pat::Ident(pi) if pi.ident == "other");
+                let ok_ty = matches!(&*pt.ty, Type::Reference(r) if r.mutability.is_none() && mv_type(&r.elem).as_deref() == Some(other_ty.as_str()));
+                if !ok_name || !ok_ty {
+                    return Err(format!("{ictx}: second parameter must be `other: &<trait argument>`"));
+                }
+            }
+            _ => return Err(format!("{ictx}: bad second parameter")),
+        }
+        // body: `$f(x, y)` or `$f(x, y).map(core::cmp::Ordering::reverse)`
+        if f.block.stmts.len() != 1 {
+            return Err(format!("{ictx}: body must be a single expression"));
+        }
+        let Stmt::Expr(body, None) = &f.block.stmts[0] else {
+            return Err(format!("{ictx}: body must be a tail expression"));
+        };
+        let (call, reverse) = match body {
+            Expr::MethodCall(mc) if mc.method == "map" && mc.args.len() == 1 && mc.turbofish.is_none() => {
+                let ok = match &mc.args[0] {
+                    Expr::Path(p) => {
+                        let segs: Vec<String> = p.path.segments.iter().map(|s| s.ident.to_string()).collect();
+                        segs.ends_with(&["Ordering".to_string(), "reverse".to_string()])
+                    }
+                    _ => false,
+                };
+                if !ok {
+                    return Err(format!("{ictx}: `.map(…)` with something else than Ordering::reverse"));
+                }
+                (&*mc.receiver, true)
+            }
+            e => (e, false),
+        };
+        let Expr::Call(c) = call else {
+            return Err(format!("{ictx}: body is not a call of the helper"));
+        };
+        if !path_is_single(&c.func, &mvf) || c.args.len() != 2 {
+            return Err(format!("{ictx}: body must call `${vf}` with two arguments"));
+        }
+        let arg = |e: &Expr| -> Result<Arg, String> {
+            if path_is_single(e, "self") {
+                Ok(Arg::SelfArg)
+            } else if path_is_single(e, "other") {
+                Ok(Arg::Other)
+            } else {
+                Err(format!("{ictx}: helper argument is neither `self` nor `other`"))
+            }
+        };
+        out.push(Template {
+            macro_name: name.to_string(),
+            tr,
+            self_is_a,
+            arg1: arg(&c.args[0])?,
+            arg2: arg(&c.args[1])?,
+            reverse,
+            loc: l,
+        });
+    }
+    if out.is_empty() {
+        return Err(format!("{ctx}: no impl template found"));
+    }
+    Ok(out)
+}
+
+// ---------------------------------------------------------------------------------------------
+// macro invocations
+
+struct InvRow {
+    a: Type,
+    b: Type,
+    f: syn::Path,
+    span: Span,
+}
+
+struct Invocation(Vec<InvRow>);
+
+impl Parse for Invocation {
+    fn parse(input: ParseStream) -> syn::Result<Self> {
+        let mut rows = vec![];
+        while !input.is_empty() {
+            // `[gen]`? `[where …]`?   (at most one of each, in this order)
+            let mut seen_gen = false;
+            let mut seen_where = false;
+            while input.peek(syn::token::Bracket) {
+                let content;
+                syn::bracketed!(content in input);
+                let is_where = content.peek(syn::Token![where]);
+                if is_where {
+                    if seen_where {
+                        return Err(content.error("two `[where …]` groups"));
+                    }
+                    seen_where = true;
+                } else {
+                    if seen_gen || seen_where {
+                        return Err(content.error("unexpected `[…]` group"));
+                    }
+                    seen_gen = true;
+                }
+                let _: TokenStream = content.parse()?;
+            }
+            let content;
+            let paren = syn::parenthesized!(content in input);
+            let a: Type = content.parse()?;
+            content.parse::<syn::Token![,]>()?;
+            let b: Type = content.parse()?;
+            if !content.is_empty() {
+                return Err(content.error("expected `(A, B)`"));
+            }
+            input.parse::<syn::Token![=]>()?;
+            let f: syn::Path = input.parse()?;
+            input.parse::<syn::Token![;]>()?;
+            rows.push(InvRow { a, b, f, span: paren.span.open() });
+        }
+        Ok(Invocation(rows))
+    }
+}
+
+#[derive(Debug)]
+struct Helper {
+    name: String,
+    t1: Target,
+    t2: Target,
+    op: Op,
+    loc: String,
+}
+
+fn as_ref_target(arg: &FnArg, ctx: &str) -> Result<(String, Target), String> {
+    let FnArg::Typed(pt) = arg else { return Err(format!("{ctx}: helper has a receiver")) };
+    let Pat::Ident(pi) = &*pt.pat else { return Err(format!("{ctx}: helper parameter pattern")) };
+    let Type::ImplTrait(it) = &*pt.ty else {
+        return Err(format!("{ctx}: helper parameter `{}` is not `impl AsRef<…>`", pi.ident));
+    };
+    if it.bounds.len() != 1 {
+        return Err(format!("{ctx}: helper parameter `{}` has several bounds", pi.ident));
+    }
+    let syn::TypeParamBound::Trait(tb) = &it.bounds[0] else {
+        return Err(format!("{ctx}: helper parameter bound"));
+    };
+    let seg = tb.path.segments.last().unwrap();
+    if seg.ident != "AsRef" {
+        return Err(format!("{ctx}: helper parameter `{}` is not `impl AsRef<…>`", pi.ident));
+    }
+    let args = type_args(seg);
+    if args.len() != 1 {
+        return Err(format!("{ctx}: AsRef arity"));
+    }
+    let t = target_of_type(args[0]).ok_or_else(|| format!("{ctx}: unknown AsRef target `{}`", quote::quote!(#(#args)*)))?;
+    Ok((pi.ident.to_string(), t))
+}
+
+/// `x.as_ref()` → "x"
+fn as_ref_call(e: &Expr) -> Option<String> {
+    match e {
+        Expr::MethodCall(mc) if mc.method == "as_ref" && mc.args.is_empty() && mc.turbofish.is_none() => match &*mc.receiver {
+            Expr::Path(p) => p.path.get_ident().map(|i| i.to_string()),
+            _ => None,
+        },
+        _ => None,
+    }
+}
+
+fn parse_helper(file: &SrcFile, f: &ItemFn) -> Result<Helper, String> {
+    let name = f.sig.ident.to_string();
+    let ctx = format!("{}: fn {name}", file.rel);
+    if !f.sig.generics.params.is_empty() || f.sig.inputs.len() != 2 {
+        return Err(format!("{ctx}: helper must be `fn(a: impl AsRef<_>, b: impl AsRef<_>)`"));
+    }
+    let (n1, t1) = as_ref_target(&f.sig.inputs[0], &ctx)?;
+    let (n2, t2) = as_ref_target(&f.sig.inputs[1], &ctx)?;
+    // body: exactly one tail expression (comments are not tokens)
+    if f.block.stmts.len() != 1 {
+        return Err(format!("{ctx}: body must be a single expression"));
+    }
+    let Stmt::Expr(body, None) = &f.block.stmts[0] else {
+        return Err(format!("{ctx}: body must be a tail expression"));
+    };
+    let (l, r, op) = match body {
+        Expr::Binary(b) if matches!(b.op, syn::BinOp::Eq(_)) => (as_ref_call(&b.left), as_ref_call(&b.right), Op::EqEq),
+        Expr::MethodCall(mc) if mc.method == "partial_cmp" && mc.args.len() == 1 && mc.turbofish.is_none() => {
+            (as_ref_call(&mc.receiver), as_ref_call(&mc.args[0]), Op::PartialCmp)
+        }
+        _ => return Err(format!("{ctx}: body is neither `a.as_ref() == b.as_ref()` nor `a.as_ref().partial_cmp(b.as_ref())`")),
+    };
+    if l.as_deref() != Some(n1.as_str()) || r.as_deref() != Some(n2.as_str()) {
+        return Err(format!("{ctx}: operands must be `{n1}.as_ref()` then `{n2}.as_ref()`"));
+    }
+    // return type must fit the operator
+    let ret_ok = match (&f.sig.output, op) {
+        (syn::ReturnType::Type(_, t), Op::EqEq) => matches!(&**t, Type::Path(p) if p.path.is_ident("bool")),
+        (syn::ReturnType::Type(_, t), Op::PartialCmp) => match &**t {
+            Type::Path(p) => {
+                let seg = p.path.segments.last().unwrap();
+                seg.ident == "Option" && type_args(seg).len() == 1 && matches!(type_args(seg)[0], Type::Path(q) if last_ident(&q.path) == "Ordering")
+            }
+            _ => false,
+        },
+        _ => false,
+    };
+    if !ret_ok {
+        return Err(format!("{ctx}: return type does not match the operator"));
+    }
+    Ok(Helper { name, t1, t2, op, loc: loc(file, f.sig.fn_token.span) })
+}
+
+fn find_fn<'a>(file: &'a SrcFile, name: &str) -> Result<Option<&'a ItemFn>, String> {
+    let mut found: Option<&ItemFn> = None;
+    for it in &file.ast.items {
+        if let Item::Fn(f) = it {
+            if f.sig.ident == name {
+                if found.is_some() {
+                    return Err(format!("{}: two functions named {name}", file.rel));
+                }
+                found = Some(f);
+            }
+        }
+    }
+    Ok(found)
+}
+
+/// All `(imported name, absolute module path)` pairs of a `use` tree.
+fn use_leaves(tree: &syn::UseTree, prefix: &mut Vec<String>, out: &mut Vec<(String, Vec<String>)>) -> Result<(), String> {
+    match tree {
+        syn::UseTree::Path(p) => {
+            prefix.push(p.ident.to_string());
+            use_leaves(&p.tree, prefix, out)?;
+            prefix.pop();
+        }
+        syn::UseTree::Name(n) => out.push((n.ident.to_string(), prefix.clone())),
+        syn::UseTree::Rename(r) => out.push((r.rename.to_string(), {
+            let mut p = prefix.clone();
+            p.push(format!("\u{0}renamed:{}", r.ident));
+            p
+        })),
+        syn::UseTree::Group(g) => {
+            for t in &g.items {
+                use_leaves(t, prefix, out)?;
+            }
+        }
+        syn::UseTree::Glob(_) => out.push(("*".into(), prefix.clone())),
+    }
+    Ok(())
+}
+
+fn resolve_helper(repo: &Repo, file: &SrcFile, path: &syn::Path) -> Result<Helper, String> {
+    let name = path.get_ident().ok_or_else(|| format!("{}: helper path `{}` is not a plain identifier", file.rel, quote::quote!(#path)))?.to_string();
+    if let Some(f) = find_fn(file, &name)? {
+        return parse_helper(file, f);
+    }
+    // imported
+    let mut leaves = vec![];
+    for it in &file.ast.items {
+        if let Item::Use(u) = it {
+            use_leaves(&u.tree, &mut vec![], &mut leaves)?;
+        }
+    }
+    let hits: Vec<&(String, Vec<String>)> = leaves.iter().filter(|(n, _)| *n == name).collect();
+    if hits.len() != 1 {
+        return Err(format!("{}: helper `{name}` is neither defined here nor imported exactly once", file.rel));
+    }
+    let mut m = module_path(&file.rel)?;
+    let mut segs = hits[0].1.iter();
+    let mut first = true;
+    for s in &mut segs {
+        match s.as_str() {
+            "crate" if first => m.clear(),
+            "self" if first => {}
+            "super" => {
+                if m.pop().is_none() {
+                    return Err(format!("{}: `super` above the crate root", file.rel));
+                }
+            }
+            other if other.starts_with('\u{0}') => return Err(format!("{}: renamed import of `{name}`", file.rel)),
+            other => {
+                if first {
+                    return Err(format!("{}: helper `{name}` imported through `{other}::…` (not crate/self/super)", file.rel));
+                }
+                m.push(other.to_string())
+            }
+        }
+        first = false;
+    }
+    let target = file_of_module(repo, &m)?;
+    let f = find_fn(target, &name)?.ok_or_else(|| format!("{}: helper `{name}` not found in {}", file.rel, target.rel))?;
+    parse_helper(target, f)
+}
+
+// ---------------------------------------------------------------------------------------------
+// rows
+
+struct Row {
+    tr: Trait,
+    lhs: Operand,
+    rhs: Operand,
+    body: String,
+    feature: String,
+    loc: String,
+}
+
+struct BorrowRow {
+    owner: Hip,
+    target: Target,
+    acc: Accessor,
+    wrap: &'static str,
+    feature: String,
+    loc: String,
+}
+
+/// `self.acc()` / `other.acc()` → (receiver name, accessor)
+fn accessor_call(e: &Expr) -> Option<(String, Accessor)> {
+    match e {
+        Expr::MethodCall(mc) if mc.args.is_empty() && mc.turbofish.is_none() => {
+            let acc = Accessor::from_ident(&mc.method.to_string())?;
+            match &*mc.receiver {
+                Expr::Path(p) => Some((p.path.get_ident()?.to_string(), acc)),
+                _ => None,
+            }
+        }
+        _ => None,
+    }
+}
+
+/// `self.0` / `other.0` → receiver name
+fn field0(e: &Expr) -> Option<String> {
+    match e {
+        Expr::Field(f) => match (&f.member, &*f.base) {
+            (syn::Member::Unnamed(i), Expr::Path(p)) if i.index == 0 => Some(p.path.get_ident()?.to_string()),
+            _ => None,
+        },
+        _ => None,
+    }
+}
+
+/// `x.0.as_encoded_bytes()` → x
+fn field0_encoded_bytes(e: &Expr) -> Option<String> {
+    match e {
+        Expr::MethodCall(mc) if mc.method == "as_encoded_bytes" && mc.args.is_empty() => field0(&mc.receiver),
+        _ => None,
+    }
+}
+
+fn single_tail_expr<'a>(f: &'a syn::ImplItemFn, ctx: &str) -> Result<&'a Expr, String> {
+    if f.block.stmts.len() != 1 {
+        return Err(format!("{ctx}: body must be a single expression"));
+    }
+    match &f.block.stmts[0] {
+        Stmt::Expr(e, None) => Ok(e),
+        _ => Err(format!("{ctx}: body must be a tail expression")),
+    }
+}
+
+fn only_method<'a>(im: &'a ItemImpl, name: &str, ctx: &str) -> Result<&'a syn::ImplItemFn, String> {
+    if im.items.len() != 1 {
+        return Err(format!("{ctx}: expected exactly one item"));
+    }
+    match &im.items[0] {
+        ImplItem::Fn(f) if f.sig.ident == name => Ok(f),
+        _ => Err(format!("{ctx}: expected method `{name}`")),
+    }
+}
+
+/// Name of the second parameter (after `&self`).
+fn second_param(f: &syn::ImplItemFn, ctx: &str) -> Result<String, String> {
+    let ins: Vec<&FnArg> = f.sig.inputs.iter().collect();
+    if ins.len() != 2 || !matches!(ins[0], FnArg::Receiver(r) if r.reference.is_some() && r.mutability.is_none()) {
+        return Err(format!("{ctx}: expected (&self, <param>)"));
+    }
+    match ins[1] {
+        FnArg::Typed(pt) => match &*pt.pat {
+            Pat::Ident(pi) => Ok(pi.ident.to_string()),
+            _ => Err(format!("{ctx}: parameter pattern")),
+        },
+        _ => Err(format!("{ctx}: parameter")),
+    }
+}
+
+/// `self.acc() <op> other.acc()` with the same accessor on both sides.
+fn accessor_cmp(l: &Expr, r: &Expr, other: &str, ctx: &str) -> Result<Accessor, String> {
+    match (accessor_call(l), accessor_call(r)) {
+        (Some((a, x)), Some((b, y))) if a == "self" && b == other && x == y => Ok(x),
+        _ => Err(format!("{ctx}: operands are not `self.acc()` and `{other}.acc()` with the same accessor")),
+    }
+}
+
+fn handwritten_impl(
+    file: &SrcFile,
+    im: &ItemImpl,
+    tr: Trait,
+    file_feats: &[String],
+    rows: &mut Vec<Row>,
+    borrows: &mut Vec<BorrowRow>,
+    used_acc: &mut Vec<(Hip, Accessor)>,
+) -> Result<(), String> {
+    let l = loc(file, im.impl_token.span);
+    let ctx = format!("{l}: impl {tr:?}");
+    let owner = hip_of_type(&im.self_ty).ok_or_else(|| format!("{ctx}: Self is not a Hip type"))?;
+    let cfg = cfg_of_attrs(&im.attrs, &ctx)?;
+    if matches!(cfg, Cfg::Test | Cfg::Verif) {
+        return Err(format!("{ctx}: comparison impl under cfg(test)/cfg(hipstr_verif)"));
+    }
+    let feature = join_features(file_feats, &cfg);
+    let (_, tpath, _) = im.trait_.as_ref().unwrap();
+    let targs = type_args(tpath.segments.last().unwrap());
+    let lhs = Operand::Hip(owner);
+    let mut note = |acc: Accessor| {
+        if !used_acc.contains(&(owner, acc)) {
+            used_acc.push((owner, acc));
+        }
+    };
+    match tr {
+        Trait::Eq => {
+            if !im.items.is_empty() || !targs.is_empty() {
+                return Err(format!("{ctx}: `impl Eq` with items or arguments"));
+            }
+            rows.push(Row { tr, lhs: lhs.clone(), rhs: lhs, body: ".marker".into(), feature, loc: l });
+        }
+        Trait::PartialEq | Trait::PartialOrd => {
+            if targs.len() != 1 {
+                return Err(format!("{ctx}: hand-written impl without explicit type argument"));
+            }
+            let rhs = operand_of_type(targs[0], &ctx)?;
+            if !matches!(rhs, Operand::Hip(_)) {
+                return Err(format!("{ctx}: hand-written Hip × std impl (only the symmetric macros are supported)"));
+            }
+            let m = only_method(im, if tr == Trait::PartialEq { "eq" } else { "partial_cmp" }, &ctx)?;
+            let other = second_param(m, &ctx)?;
+            let e = single_tail_expr(m, &ctx)?;
+            let body = if tr == Trait::PartialEq {
+                match e {
+                    // self.inherent_eq(other)
+                    Expr::MethodCall(mc) if mc.method == "inherent_eq" && mc.args.len() == 1 && path_is_single(&mc.receiver, "self") && path_is_single(&mc.args[0], &other) => {
+                        ".inherentEq".to_string()
+                    }
+                    Expr::Binary(b) if matches!(b.op, syn::BinOp::Eq(_)) => {
+                        if field0(&b.left).as_deref() == Some("self") && field0(&b.right).as_deref() == Some(other.as_str()) {
+                            ".field0Eq".to_string()
+                        } else {
+                            let acc = accessor_cmp(&b.left, &b.right, &other, &ctx)?;
+                            note(acc);
+                            format!(".viaAccessor .none {} .eqeq", acc.lean())
+                        }
+                    }
+                    // ptr::eq(self.0.as_encoded_bytes(), other.0.as_encoded_bytes()) || self.acc() == other.acc()
+                    Expr::Binary(b) if matches!(b.op, syn::BinOp::Or(_)) => {
+                        let sc_ok = match &*b.left {
+                            Expr::Call(c) if c.args.len() == 2 => {
+                                let f_ok = matches!(&*c.func, Expr::Path(p) if {
+                                    let s: Vec<String> = p.path.segments.iter().map(|s| s.ident.to_string()).collect();
+                                    s.ends_with(&["ptr".to_string(), "eq".to_string()])
+                                });
+                                f_ok && field0_encoded_bytes(&c.args[0]).as_deref() == Some("self") && field0_encoded_bytes(&c.args[1]).as_deref() == Some(other.as_str())
+                            }
+                            _ => false,
+                        };
+                        if !sc_ok {
+                            return Err(format!("{ctx}: unknown `||` shortcut"));
+                        }
+                        match &*b.right {
+                            Expr::Binary(r) if matches!(r.op, syn::BinOp::Eq(_)) => {
+                                let acc = accessor_cmp(&r.left, &r.right, &other, &ctx)?;
+                                note(acc);
+                                format!(".viaAccessor .ptrEqEncodedBytes {} .eqeq", acc.lean())
+                            }
+                            _ => return Err(format!("{ctx}: right of `||` is not an `==`")),
+                        }
+                    }
+                    _ => return Err(format!("{ctx}: unknown `eq` body")),
+                }
+            } else {
+                match e {
+                    Expr::MethodCall(mc) if mc.method == "partial_cmp" && mc.args.len() == 1 && mc.turbofish.is_none() => {
+                        let acc = accessor_cmp(&mc.receiver, &mc.args[0], &other, &ctx)?;
+                        note(acc);
+                        format!(".viaAccessor .none {} .partialCmp", acc.lean())
+                    }
+                    _ => return Err(format!("{ctx}: unknown `partial_cmp` body")),
+                }
+            };
+            rows.push(Row { tr, lhs, rhs, body, feature, loc: l });
+        }
+        Trait::Ord => {
+            if !targs.is_empty() {
+                return Err(format!("{ctx}: `impl Ord` with arguments"));
+            }
+            let m = only_method(im, "cmp", &ctx)?;
+            let other = second_param(m, &ctx)?;
+            let body = match single_tail_expr(m, &ctx)? {
+                Expr::MethodCall(mc) if mc.method == "cmp" && mc.args.len() == 1 && mc.turbofish.is_none() => {
+                    let acc = accessor_cmp(&mc.receiver, &mc.args[0], &other, &ctx)?;
+                    note(acc);
+                    format!(".viaAccessor .none {} {}", acc.lean(), Op::Cmp.lean())
+                }
+                _ => return Err(format!("{ctx}: unknown `cmp` body")),
+            };
+            rows.push(Row { tr, lhs: lhs.clone(), rhs: lhs, body, feature, loc: l });
+        }
+        Trait::Hash => {
+            if !targs.is_empty() {
+                return Err(format!("{ctx}: `impl Hash` with arguments"));
+            }
+            let m = only_method(im, "hash", &ctx)?;
+            let state = second_param(m, &ctx)?;
+            if m.block.stmts.len() != 1 {
+                return Err(format!("{ctx}: `hash` body must be one statement"));
+            }
+            let e = match &m.block.stmts[0] {
+                Stmt::Expr(e, _) => e,
+                _ => return Err(format!("{ctx}: `hash` body")),
+            };
+            let acc = match e {
+                Expr::MethodCall(mc) if mc.method == "hash" && mc.args.len() == 1 && path_is_single(&mc.args[0], &state) => match accessor_call(&mc.receiver) {
+                    Some((r, acc)) if r == "self" => acc,
+                    _ => return Err(format!("{ctx}: `hash` receiver is not `self.acc()`")),
+                },
+                _ => return Err(format!("{ctx}: unknown `hash` body")),
+            };
+            note(acc);
+            rows.push(Row { tr, lhs: lhs.clone(), rhs: lhs, body: format!(".hashVia {}", acc.lean()), feature, loc: l });
+        }
+        Trait::Borrow => {
+            if targs.len() != 1 {
+                return Err(format!("{ctx}: Borrow arity"));
+            }
+            let target = target_of_type(targs[0]).ok_or_else(|| format!("{ctx}: unknown Borrow target `{}`", { let t = targs[0]; quote::quote!(#t) }))?;
+            let m = only_method(im, "borrow", &ctx)?;
+            if m.sig.inputs.len() != 1 {
+                return Err(format!("{ctx}: borrow(&self)"));
+            }
+            // return type must be `&<target>`
+            let ret_ok = match &m.sig.output {
+                syn::ReturnType::Type(_, t) => matches!(&**t, Type::Reference(r) if r.mutability.is_none() && target_of_type(&r.elem) == Some(target)),
+                _ => false,
+            };
+            if !ret_ok {
+                return Err(format!("{ctx}: `borrow` does not return `&<target>`"));
+            }
+            let e = single_tail_expr(m, &ctx)?;
+            let (acc, wrap) = match e {
+                Expr::Call(c) if c.args.len() == 1 => {
+                    let f_ok = matches!(&*c.func, Expr::Path(p) if {
+                        let s: Vec<String> = p.path.segments.iter().map(|s| s.ident.to_string()).collect();
+                        s == ["BStr", "new"]
+                    });
+                    match (f_ok, accessor_call(&c.args[0])) {
+                        (true, Some((r, acc))) if r == "self" => (acc, ".bstrNew"),
+                        _ => return Err(format!("{ctx}: unknown `borrow` body")),
+                    }
+                }
+                e => match accessor_call(e) {
+                    Some((r, acc)) if r == "self" => (acc, ".none"),
+                    _ => return Err(format!("{ctx}: unknown `borrow` body")),
+                },
+            };
+            note(acc);
+            borrows.push(BorrowRow { owner, target, acc, wrap, feature, loc: l });
+        }
+    }
+    Ok(())
+}
+
+// ---------------------------------------------------------------------------------------------
+// supporting facts: newtypes, accessor signatures, inherent_eq
+
+fn newtype_rows(repo: &Repo) -> Result<Vec<(Hip, Hip, String)>, String> {
+    let mut out = vec![];
+    let mut seen = vec![];
+    for file in repo.non_test_files() {
+        for it in &file.ast.items {
+            let Item::Struct(s) = it else { continue };
+            let Some(h) = Hip::from_ident(&s.ident.to_string()) else { continue };
+            let l = loc(file, s.struct_token.span);
+            if seen.contains(&h) {
+                return Err(format!("{l}: second definition of {}", h.rust()));
+            }
+            seen.push(h);
+            // no derived comparison traits
+            for a in &s.attrs {
+                if a.path().is_ident("derive") {
+                    let txt = a.meta.require_list().map(|l| l.tokens.to_string()).unwrap_or_default();
+                    for t in ["PartialEq", "Eq", "PartialOrd", "Ord", "Hash"] {
+                        if txt.split(|c: char| !c.is_alphanumeric()).any(|w| w == t) {
+                            return Err(format!("{l}: {} derives {t}", h.rust()));
+                        }
+                    }
+                }
+            }
+            match &s.fields {
+                syn::Fields::Unnamed(u) if u.unnamed.len() == 1 => {
+                    let inner = hip_of_type(&u.unnamed[0].ty).ok_or_else(|| format!("{l}: {}'s field is not a Hip type", h.rust()))?;
+                    out.push((h, inner, l));
+                }
+                syn::Fields::Named(_) if h == Hip::Byt => {}
+                _ => return Err(format!("{l}: unsupported definition of {}", h.rust())),
+            }
+        }
+    }
+    if seen.len() != 4 {
+        return Err(format!("expected the 4 Hip struct definitions, found {seen:?}"));
+    }
+    Ok(out)
+}
+
+/// Resolves `owner.acc()`: an inherent `fn acc(&self) -> &T`, else through `Deref<Target = str>`.
+fn accessor_sig(repo: &Repo, owner: Hip, acc: Accessor) -> Result<(Target, String), String> {
+    let mut found: Vec<(Target, String)> = vec![];
+    let mut deref: Vec<(Type, String)> = vec![];
+    for file in repo.non_test_files() {
+        for it in &file.ast.items {
+            let Item::Impl(im) = it else { continue };
+            if hip_of_type(&im.self_ty) != Some(owner) {
+                continue;
+            }
+            match &im.trait_ {
+                None => {
+                    if matches!(cfg_of_attrs(&im.attrs, &file.rel), Ok(Cfg::Test) | Ok(Cfg::Verif)) {
+                        continue;
+                    }
+                    for ii in &im.items {
+                        let ImplItem::Fn(f) = ii else { continue };
+                        if f.sig.ident != acc.rust() {
+                            continue;
+                        }
+                        let l = loc(file, f.sig.fn_token.span);
+                        let recv_ok = f.sig.inputs.len() == 1 && matches!(f.sig.inputs.first(), Some(FnArg::Receiver(r)) if r.reference.is_some() && r.mutability.is_none());
+                        let ret = match &f.sig.output {
+                            syn::ReturnType::Type(_, t) => match &**t {
+                                Type::Reference(r) if r.mutability.is_none() => target_of_type(&r.elem),
+                                _ => None,
+                            },
+                            _ => None,
+                        };
+                        match (recv_ok, ret) {
+                            (true, Some(t)) => found.push((t, l)),
+                            _ => return Err(format!("{l}: unsupported signature of {}::{}", owner.rust(), acc.rust())),
+                        }
+                    }
+                }
+                Some((_, p, _)) if last_ident(p) == "Deref" => {
+                    for ii in &im.items {
+                        if let ImplItem::Type(t) = ii {
+                            if t.ident == "Target" {
+                                deref.push((t.ty.clone(), loc(file, im.impl_token.span)));
+                            }
+                        }
+                    }
+                }
+                _ => {}
+            }
+        }
+    }
+    match found.len() {
+        1 => Ok(found.pop().unwrap()),
+        0 => {
+            // std facts used for the Deref fallback: `str::as_bytes(&self) -> &[u8]`
+            if deref.len() == 1 {
+                let (t, l) = &deref[0];
+                if let (Some(Target::Str), Accessor::AsBytes) = (target_of_type(t), acc) {
+                    return Ok((Target::Slice, format!("{l} (Deref<Target = str>, str::as_bytes)")));
+                }
+            }
+            Err(format!("accessor {}::{} not found", owner.rust(), acc.rust()))
+        }
+        _ => Err(format!("accessor {}::{} defined more than once", owner.rust(), acc.rust())),
+    }
+}
+
+/// `<recv>.<method>()` with no arguments
+fn nullary_call(e: &Expr, recv: &str, method: &str) -> bool {
+    matches!(e, Expr::MethodCall(mc) if mc.method == method && mc.args.is_empty() && path_is_single(&mc.receiver, recv))
+}
+
+fn if_return_bool(e: &Expr) -> Option<(&Expr, bool)> {
+    let Expr::If(i) = e else { return None };
+    if i.else_branch.is_some() || i.then_branch.stmts.len() != 1 {
+        return None;
+    }
+    let Stmt::Expr(Expr::Return(r), Some(_)) = &i.then_branch.stmts[0] else { return None };
+    match r.expr.as_deref() {
+        Some(Expr::Lit(syn::ExprLit { lit: syn::Lit::Bool(b), .. })) => Some((&*i.cond, b.value)),
+        _ => None,
+    }
+}
+
+fn let_simple(s: &Stmt) -> Option<(String, &Expr)> {
+    let Stmt::Local(l) = s else { return None };
+    let Pat::Ident(pi) = &l.pat else { return None };
+    let init = l.init.as_ref()?;
+    if init.diverge.is_some() {
+        return None;
+    }
+    Some((pi.ident.to_string(), &*init.expr))
+}
+
+/// Structural reading of `HipByt::inherent_eq` (src/bytes/raw.rs).
+fn inherent_eq_steps(repo: &Repo) -> Result<(Vec<String>, String), String> {
+    let mut hits = vec![];
+    for file in repo.non_test_files() {
+        for it in &file.ast.items {
+            let Item::Impl(im) = it else { continue };
+            if im.trait_.is_some() || hip_of_type(&im.self_ty) != Some(Hip::Byt) {
+                continue;
+            }
+            for ii in &im.items {
+                if let ImplItem::Fn(f) = ii {
+                    if f.sig.ident == "inherent_eq" {
+                        hits.push((file, f));
+                    }
+                }
+            }
+        }
+    }
+    if hits.len() != 1 {
+        return Err(format!("expected exactly one HipByt::inherent_eq, found {}", hits.len()));
+    }
+    let (file, f) = hits[0];
+    let l = loc(file, f.sig.fn_token.span);
+    let ctx = format!("{l}: inherent_eq");
+    let other = second_param(f, &ctx)?;
+    let mut stmts: Vec<&Stmt> = f.block.stmts.iter().collect();
+    // leading `extern "C" { fn memcmp(..) }`
+    match stmts.first() {
+        Some(Stmt::Item(Item::ForeignMod(fm))) => {
+            let ok = fm.items.len() == 1 && matches!(&fm.items[0], syn::ForeignItem::Fn(ff) if ff.sig.ident == "memcmp" && ff.sig.inputs.len() == 3);
+            if !ok {
+                return Err(format!("{ctx}: unexpected extern block"));
+            }
+            stmts.remove(0);
+        }
+        _ => return Err(format!("{ctx}: expected the `extern \"C\" {{ fn memcmp }}` declaration first")),
+    }
+    let err = |what: &str| format!("{ctx}: unexpected statement shape ({what})");
+    if stmts.len() != 7 {
+        return Err(err("statement count"));
+    }
+    // let len = self.len();
+    let (len_v, e) = let_simple(stmts[0]).ok_or_else(|| err("let len"))?;
+    if !nullary_call(e, "self", "len") {
+        return Err(err("len = self.len()"));
+    }
+    // if len != other.len() { return false; }
+    let mut steps = vec![];
+    let Stmt::Expr(e, _) = stmts[1] else { return Err(err("if len")) };
+    let (c, r) = if_return_bool(e).ok_or_else(|| err("if len != other.len() { return _ }"))?;
+    match c {
+        Expr::Binary(b) if matches!(b.op, syn::BinOp::Ne(_)) && path_is_single(&b.left, &len_v) && nullary_call(&b.right, &other, "len") => {}
+        _ => return Err(err("len != other.len()")),
+    }
+    steps.push(format!(".ifLenNeReturn {r}"));
+    // let self_ptr = self.as_ptr(); let other_ptr = other.as_ptr();
+    let (sp, e) = let_simple(stmts[2]).ok_or_else(|| err("let self_ptr"))?;
+    if !nullary_call(e, "self", "as_ptr") {
+        return Err(err("self.as_ptr()"));
+    }
+    let (op, e) = let_simple(stmts[3]).ok_or_else(|| err("let other_ptr"))?;
+    if !nullary_call(e, &other, "as_ptr") {
+        return Err(err("other.as_ptr()"));
+    }
+    // if core::ptr::eq(self_ptr, other_ptr) { return true; }
+    let Stmt::Expr(e, _) = stmts[4] else { return Err(err("if ptr")) };
+    let (c, r) = if_return_bool(e).ok_or_else(|| err("if ptr::eq(..) { return _ }"))?;
+    match c {
+        Expr::Call(call) if call.args.len() == 2 && path_is_single(&call.args[0], &sp) && path_is_single(&call.args[1], &op) => {
+            let ok = matches!(&*call.func, Expr::Path(p) if {
+                let s: Vec<String> = p.path.segments.iter().map(|s| s.ident.to_string()).collect();
+                s.ends_with(&["ptr".to_string(), "eq".to_string()])
+            });
+            if !ok {
+                return Err(err("ptr::eq"));
+            }
+        }
+        _ => return Err(err("ptr::eq(self_ptr, other_ptr)")),
+    }
+    steps.push(format!(".ifPtrEqReturn {r}"));
+    // let size = len * size_of::<u8>();
+    let (size_v, e) = let_simple(stmts[5]).ok_or_else(|| err("let size"))?;
+    match e {
+        Expr::Binary(b) if matches!(b.op, syn::BinOp::Mul(_)) && path_is_single(&b.left, &len_v) => match &*b.right {
+            Expr::Call(c) if c.args.is_empty() => {
+                let ok = matches!(&*c.func, Expr::Path(p) if {
+                    let seg = p.path.segments.last().unwrap();
+                    seg.ident == "size_of" && type_args(seg).len() == 1 && is_u8(type_args(seg)[0])
+                });
+                if !ok {
+                    return Err(err("size_of::<u8>()"));
+                }
+            }
+            _ => return Err(err("len * size_of::<u8>()")),
+        },
+        _ => return Err(err("len * size_of::<u8>()")),
+    }
+    // unsafe { memcmp(self_ptr, other_ptr, size) == 0 }
+    let Stmt::Expr(Expr::Unsafe(u), None) = stmts[6] else { return Err(err("unsafe tail")) };
+    if u.block.stmts.len() != 1 {
+        return Err(err("unsafe block"));
+    }
+    let Stmt::Expr(Expr::Binary(b), None) = &u.block.stmts[0] else { return Err(err("memcmp(..) == 0")) };
+    let zero = matches!(&*b.right, Expr::Lit(syn::ExprLit { lit: syn::Lit::Int(i), .. }) if i.base10_digits() == "0");
+    let call_ok = match &*b.left {
+        Expr::Call(c) => path_is_single(&c.func, "memcmp") && c.args.len() == 3 && path_is_single(&c.args[0], &sp) && path_is_single(&c.args[1], &op) && path_is_single(&c.args[2], &size_v),
+        _ => false,
+    };
+    if !matches!(b.op, syn::BinOp::Eq(_)) || !zero || !call_ok {
+        return Err(err("memcmp(self_ptr, other_ptr, size) == 0"));
+    }
+    steps.push(".retMemcmpIsZero".to_string());
+    Ok((steps, l))
+}
+
+// ---------------------------------------------------------------------------------------------
+
+fn macro_name_of(path: &syn::Path) -> Option<&'static str> {
+    match last_ident(path).as_str() {
+        "symmetric_eq" => Some("symmetric_eq"),
+        "symmetric_ord" => Some("symmetric_ord"),
+        _ => None,
+    }
+}
+
+/// Refuses the macros (or hand-written comparison impls for Hip types) anywhere we do not look:
+/// inside inline modules or function bodies of non-test code.
+struct Nested<'a> {
+    file: &'a SrcFile,
+    depth: usize,
+    err: Option<String>,
+}
+
+impl<'ast> syn::visit::Visit<'ast> for Nested<'_> {
+    fn visit_item_mod(&mut self, m: &'ast syn::ItemMod) {
+        if matches!(cfg_of_attrs(&m.attrs, ""), Ok(Cfg::Test)) {
+            return;
+        }
+        self.depth += 1;
+        syn::visit::visit_item_mod(self, m);
+        self.depth -= 1;
+    }
+    fn visit_block(&mut self, b: &'ast syn::Block) {
+        self.depth += 1;
+        syn::visit::visit_block(self, b);
+        self.depth -= 1;
+    }
+    fn visit_macro(&mut self, m: &'ast syn::Macro) {
+        if self.depth > 0 && macro_name_of(&m.path).is_some() && self.err.is_none() {
+            self.err = Some(format!("{}: nested `{}!` invocation", loc(self.file, m.bang_token.span), last_ident(&m.path)));
+        }
+    }
+    fn visit_item_impl(&mut self, im: &'ast ItemImpl) {
+        if self.depth > 0 && self.err.is_none() {
+            if let Some((_, p, _)) = &im.trait_ {
+                if Trait::from_ident(&last_ident(p)).is_some() && hip_of_type(&im.self_ty).is_some() {
+                    self.err = Some(format!("{}: nested comparison impl for a Hip type", loc(self.file, im.impl_token.span)));
+                }
+            }
+        }
+        syn::visit::visit_item_impl(self, im);
+    }
+}
+
+pub fn generate(repo: &Repo) -> Result<Vec<GenFile>, String> {
+    let macros_file = repo.file("src/macros.rs")?;
+    let mut templates = parse_macro_def(macros_file, "symmetric_eq")?;
+    templates.extend(parse_macro_def(macros_file, "symmetric_ord")?);
+
+    let mut rows: Vec<Row> = vec![];
+    let mut borrows: Vec<BorrowRow> = vec![];
+    let mut used_acc: Vec<(Hip, Accessor)> = vec![];
+
+    for file in repo.non_test_files() {
+        {
+            use syn::visit::Visit;
+            let mut n = Nested { file, depth: 0, err: None };
+            n.visit_file(&file.ast);
+            if let Some(e) = n.err {
+                return Err(e);
+            }
+        }
+        let mut feats: Option<Vec<String>> = None;
+        let mut file_feats = |repo: &Repo| -> Result<Vec<String>, String> {
+            if feats.is_none() {
+                feats = Some(file_features(repo, &file.rel)?);
+            }
+            Ok(feats.clone().unwrap())
+        };
+        for it in &file.ast.items {
+            match it {
+                Item::Macro(m) => {
+                    let Some(mname) = macro_name_of(&m.mac.path) else {
+                        if last_ident(&m.mac.path) == "trait_impls" && !file.rel.starts_with("src/vecs/") {
+                            return Err(format!("{}: `trait_impls!` outside src/vecs (may generate comparison impls)", file.rel));
+                        }
+                        continue;
+                    };
+                    let ctx = format!("{}: {mname}!", loc(file, m.mac.bang_token.span));
+                    let cfg = cfg_of_attrs(&m.attrs, &ctx)?;
+                    if matches!(cfg, Cfg::Test | Cfg::Verif) {
+                        return Err(format!("{ctx}: under cfg(test)/cfg(hipstr_verif)"));
+                    }
+                    let feature = join_features(&file_feats(repo)?, &cfg);
+                    let inv: Invocation = syn::parse2(m.mac.tokens.clone()).map_err(|e| format!("{ctx}: row syntax: {e}"))?;
+                    for r in inv.0 {
+                        let l = loc(file, r.span);
+                        let rctx = format!("{l}: {mname}! row");
+                        let a = operand_of_type(&r.a, &rctx)?;
+                        let b = operand_of_type(&r.b, &rctx)?;
+                        if !matches!(a, Operand::Hip(_)) && !matches!(b, Operand::Hip(_)) {
+                            return Err(format!("{rctx}: no Hip operand"));
+                        }
+                        let h = resolve_helper(repo, file, &r.f)?;
+                        for t in templates.iter().filter(|t| t.macro_name == mname) {
+                            let (lhs, rhs) = if t.self_is_a { (a.clone(), b.clone()) } else { (b.clone(), a.clone()) };
+                            let body = format!(
+                                ".helper {} {} {} {} {} {} {} {} {}",
+                                lean_str(&h.name),
+                                h.t1.lean(),
+                                h.t2.lean(),
+                                h.op.lean(),
+                                t.arg1.lean(),
+                                t.arg2.lean(),
+                                t.reverse,
+                                lean_str(&h.loc),
+                                lean_str(&t.loc)
+                            );
+                            rows.push(Row { tr: t.tr, lhs, rhs, body, feature: feature.clone(), loc: l.clone() });
+                        }
+                    }
+                }
+                Item::Impl(im) => {
+                    let Some((_, tpath, _)) = &im.trait_ else { continue };
+                    let Some(tr) = Trait::from_ident(&last_ident(tpath)) else { continue };
+                    let targs = type_args(tpath.segments.last().unwrap());
+                    let self_hip = hip_of_type(&im.self_ty).is_some();
+                    let arg_hip = targs.iter().any(|t| hip_of_type(t).is_some());
+                    if !self_hip {
+                        if arg_hip {
+                            return Err(format!("{}: hand-written `impl {tr:?}<Hip…> for <non-Hip type>`", loc(file, im.impl_token.span)));
+                        }
+                        continue; // SliceError, FromUtf8Error, vectors, …
+                    }
+                    handwritten_impl(file, im, tr, &file_feats(repo)?, &mut rows, &mut borrows, &mut used_acc)?;
+                }
+                _ => {}
+            }
+        }
+    }
+
+    // every Hip type must have the full hand-written set
+    for h in [Hip::Byt, Hip::Str, Hip::Os, Hip::Path] {
+        for tr in [Trait::PartialEq, Trait::Eq, Trait::PartialOrd, Trait::Ord, Trait::Hash] {
+            let n = rows.iter().filter(|r| r.tr == tr && r.lhs == Operand::Hip(h) && r.rhs == Operand::Hip(h) && !r.body.starts_with(".helper")).count();
+            if n != 1 {
+                return Err(format!("expected exactly one hand-written `impl {tr:?} for {}`, found {n}", h.rust()));
+            }
+        }
+    }
+
+    let newtypes = newtype_rows(repo)?;
+    used_acc.sort();
+    let mut sigs = vec![];
+    for (h, a) in &used_acc {
+        let (t, l) = accessor_sig(repo, *h, *a)?;
+        sigs.push((*h, *a, t, l));
+    }
+    let (inh, inh_loc) = inherent_eq_steps(repo)?;
+
+    // ---- print
+    let mut s = String::new();
+    s.push_str(HEADER);
+    s.push_str("import HipVerif.Model.ViewsTy\n\n");
+    s.push_str("namespace HipVerif.Gen.CmpImpls\nopen HipVerif.Views\n\n");
+    s.push_str("/-- Impl templates of `symmetric_eq!` / `symmetric_ord!` (src/macros.rs). -/\n");
+    s.push_str("def macroTemplates : List MacroTemplate := [\n");
+    let n = templates.len();
+    for (i, t) in templates.iter().enumerate() {
+        s.push_str(&format!(
+            "  ⟨{}, {}, {}, {}, {}, {}, {}⟩{}\n",
+            lean_str(&t.macro_name),
+            t.tr.lean(),
+            t.self_is_a,
+            t.arg1.lean(),
+            t.arg2.lean(),
+            t.reverse,
+            lean_str(&t.loc),
+            if i + 1 < n { "," } else { "" }
+        ));
+    }
+    s.push_str("]\n\n");
+    s.push_str("/-- One row per comparison/hash impl (macro rows: one per impl template, i.e. both operand orders). -/\n");
+    s.push_str("def table : List CmpRow := [\n");
+    let n = rows.len();
+    for (i, r) in rows.iter().enumerate() {
+        s.push_str(&format!(
+            "  ⟨{}, {}, {}, {}, {}, {}⟩{}\n",
+            r.tr.lean(),
+            r.lhs.lean(),
+            r.rhs.lean(),
+            r.body,
+            lean_str(&r.feature),
+            lean_str(&r.loc),
+            if i + 1 < n { "," } else { "" }
+        ));
+    }
+    s.push_str("]\n\n");
+    s.push_str("/-- Every `impl Borrow<_> for Hip*`. -/\n");
+    s.push_str("def borrows : List BorrowRow := [\n");
+    let n = borrows.len();
+    for (i, b) in borrows.iter().enumerate() {
+        s.push_str(&format!(
+            "  ⟨{}, {}, {}, {}, {}, {}⟩{}\n",
+            b.owner.lean(),
+            b.target.lean(),
+            b.acc.lean(),
+            b.wrap,
+            lean_str(&b.feature),
+            lean_str(&b.loc),
+            if i + 1 < n { "," } else { "" }
+        ));
+    }
+    s.push_str("]\n\n");
+    s.push_str("/-- What `.0` is for the tuple-struct Hip types. -/\n");
+    s.push_str("def newtypes : List NewtypeRow := [\n");
+    let n = newtypes.len();
+    for (i, (o, inn, l)) in newtypes.iter().enumerate() {
+        s.push_str(&format!("  ⟨{}, {}, {}⟩{}\n", o.lean(), inn.lean(), lean_str(l), if i + 1 < n { "," } else { "" }));
+    }
+    s.push_str("]\n\n");
+    s.push_str("/-- Return types of the accessors the hand-written impls go through. -/\n");
+    s.push_str("def accessorSigs : List AccessorSig := [\n");
+    let n = sigs.len();
+    for (i, (h, a, t, l)) in sigs.iter().enumerate() {
+        s.push_str(&format!("  ⟨{}, {}, {}, {}⟩{}\n", h.lean(), a.lean(), t.lean(), lean_str(l), if i + 1 < n { "," } else { "" }));
+    }
+    s.push_str("]\n\n");
+    s.push_str(&format!("/-- Statements of `HipByt::inherent_eq` ({inh_loc}). -/\n"));
+    s.push_str(&format!("def inherentEq : List InhStep := [{}]\n\n", inh.join(", ")));
+    s.push_str("end HipVerif.Gen.CmpImpls\n");
+    Ok(vec![GenFile { name: "CmpImpls.lean".into(), content: s }])
 }
